@@ -363,7 +363,10 @@ def gate_shapes(repo):
     aut = strip_comments(open(os.path.join(repo, 'src/daemon/http/auth/authorizer.rs')).read())
     rol = strip_comments(open(os.path.join(repo, 'src/daemon/http/auth/roles.rs')).read())
     srv = strip_comments(open(os.path.join(repo, 'src/daemon/http/server.rs')).read())
+    cfg = strip_comments(open(os.path.join(repo, 'src/config.rs')).read())
     exp = {
+        # testbed mode is the presence of the [testbed] section - not ta_support_enabled, not ta_proxy_enabled()
+        ('config.rs', 'Config::testbed_enabled'): (cfg, r'impl Config \{', 'self.testbed.is_some()'),
         ('request.rs', 'check_permission'): (req, r"impl<'a> Request<'a> \{", '''self.auth.check_permission(permission, resource).map_err(|err| {
                 HttpResponse::response_from_error(Error::from(err)) })'''),
         ('request.rs', 'proceed_permitted'): (req, r"impl<'a> Request<'a> \{", '''self.check_permission(permission, resource)?;
